@@ -533,6 +533,11 @@ fn play_group(
             make_pipes.push(None);
         }
     }
+    for (k, mp) in make_pipes.iter().enumerate() {
+        if let Some((r, _)) = mp {
+            sim.watch_fds.push((format!("make{}", k), *r));
+        }
+    }
     let mut started = vec![false; cmds.len()];
     let mut cmd_index: Vec<Option<usize>> = vec![None; cmds.len()];
     let spawn_one = |sim: &mut Sim, k: usize| -> Result<usize, SimError> {
